@@ -40,6 +40,7 @@ fn probe_name(i: u32) -> String {
 }
 
 pub fn gen_admin(r: &mut Rng, g: &RawGen, rule_counter: &mut u32, allow_unwind: bool) -> AdminOp {
+    if r.chance(1, 25) { return AdminOp::SetDateRule { mdy: r.chance(1, 2) }; }
     match r.below(16) {
         0 | 1 | 2 => {
             let name = match r.below(6) {
